@@ -67,6 +67,10 @@ impl Prop for C01 {
             Ok(s) => s,
             Err(_) => return RunOut::skip("parser-rejected"),
         };
+        // precondition of the property: the configuration does not deliberately latch output
+        if !config_is_non_latching(&case.cfg) {
+            return RunOut::skip("config-latches-a-virtual-key");
+        }
         // precondition of the property: every pressed key is eventually released, virtual keys
         // operated over TCP are balanced
         {
@@ -160,7 +164,7 @@ impl Prop for C01 {
                 tags.push(format!("busy:{}", part.split(|c| c == '=' || c == '(').next().unwrap_or(part)));
             }
         }
-        if st.probes.max_queue >= 32 || st.probes.queue_full_on_event > 0 || o.counters.get("fault.burst_gt32_events_in_one_ms").copied().unwrap_or(0) > 0 {
+        if st.probes.max_queue >= 30 || st.probes.queue_full_on_event > 0 || o.counters.get("fault.burst_gt32_events_in_one_ms").copied().unwrap_or(0) > 0 {
             tags.push("queue-overflow".into());
         }
         if st.probes.max_states >= 64 {
@@ -169,11 +173,35 @@ impl Prop for C01 {
         if st.probes.custom_events_collided > 0 {
             tags.push("custom-events-collided".into());
         }
+        if st.probes.max_active_sequences >= 4 {
+            tags.push("more-than-4-concurrent-macros".into());
+        }
         if self_retrigger {
             tags.push("self-retriggering-action".into());
         }
         if !d.is_empty() && d.keys.iter().all(|k| k.starts_with("code")) {
             tags.push("stuck:custom-outputs-only".into());
+        }
+        // Is everything that is stuck the output of a custom action whose release handler did
+        // not run? (mouse buttons, arbitrary codes, scroll / mouse-move state, unmod / unshift
+        // keys that no layout state holds, keys held only by a virtual key that an on-release
+        // handler should have released)
+        {
+            use kanata_keyberon::layout::State;
+            let l = st.k.layout.b();
+            let key_is_custom_held = |name: &String| -> bool {
+                if name.starts_with("code") {
+                    return true;
+                }
+                let holders: Vec<&State<_>> = l.states.iter().filter(|s_| s_.keycode().map(|kc| format!("{kc:?}") == *name).unwrap_or(false)).collect();
+                holders.is_empty() || holders.iter().all(|s_| s_.coord().map(|c| c.0 == 1).unwrap_or(false))
+            };
+            let keys_custom = d.keys.iter().all(key_is_custom_held);
+            let busy_only_custom = breakdown.split(',').all(|p| p.is_empty() || p.starts_with("states=") || p.starts_with("scroll_state") || p.starts_with("move_mouse_state"));
+            let something_stuck = !d.is_empty() || breakdown.contains("scroll_state") || breakdown.contains("move_mouse_state");
+            if something_stuck && keys_custom && busy_only_custom {
+                tags.push("stuck:custom-action-output".into());
+            }
         }
         if !d.is_empty() {
             o.set_fail(
